@@ -48,7 +48,14 @@ Record evm_state := Evm {
   e_storage : zmap Z          (* prefixStorage: skey address slot -> 32-byte value (a stored zero stays a present slot) *)
 }.
 
+(* x/feemarket Params: base_fee (sdkmath.Int) and min_gas_price (sdkmath.LegacyDec, carried as the underlying integer
+   value * 10^18, so fractional prices such as 1000000000.5 are exact) *)
 Record fm_state := Fm { f_base_fee : Z; f_min_gas_price : Z }.
+Definition DEC : Z := 10 ^ 18.
+(* feemarkettypes.Params.Validate: base fee not negative, min gas price not negative *)
+Definition fm_valid (f : fm_state) : bool := (0 <=? f_base_fee f) && (0 <=? f_min_gas_price f).
+(* MinGasPrice.TruncateInt(): the floor Keeper.CalculateBaseFee applies in EndBlock *)
+Definition fm_floor (f : fm_state) : Z := f_min_gas_price f / DEC.
 
 Record meta := Meta { m_type : Z; m_digest : Z }.   (* precompile type; identifier of name + typed meta + disabled flag *)
 
@@ -181,13 +188,21 @@ Definition import_cpc (k : cpc_consts) (v : env) (g : gen) : res cpc_state :=
       end
   end.
 
+(* x/feemarket InitGenesis: Keeper.SetParams(data.Params), which validates and stores the params AS THEY ARE: no
+   clamping, no rounding of the base fee against the min gas price; an invalid document panics *)
+Definition import_fm (f : fm_state) : res fm_state := if fm_valid f then Ok f else Panic.
+
 Definition import (k : cpc_consts) (v : env) (g : gen) : res cstate :=
   match import_accts v (Evm (g_evm_params g) [] [] []) (g_accounts g) with
   | Panic => Panic
   | Ok e =>
       match import_cpc k v g with
       | Panic => Panic
-      | Ok c => Ok (St e (g_fm g) c [])          (* vauth InitGenesis: nothing *)
+      | Ok c =>
+          match import_fm (g_fm g) with
+          | Panic => Panic
+          | Ok f => Ok (St e f c [])             (* vauth InitGenesis: nothing *)
+          end
       end
   end.
 
@@ -218,7 +233,7 @@ Definition wfb_evm (v : env) (e : evm_state) : bool :=
   (v_hash v CODE_EMPTY =? EMPTYH) && sortedb (e_codehash e) && sortedb (e_storage e) && code_okb v e.
 
 Definition wfb (v : env) (s : cstate) : bool :=
-  wfb_evm v (s_evm s) && sortedb (c_metas (s_cpc s)) && sortedb (c_denoms (s_cpc s)) && sortedb (c_allow (s_cpc s))
+  fm_valid (s_fm s) && wfb_evm v (s_evm s) && sortedb (c_metas (s_cpc s)) && sortedb (c_denoms (s_cpc s)) && sortedb (c_allow (s_cpc s))
   && sortedb (s_proofs s).
 
 (* ------------------------------------------------------------------ store-level operations a block history is made of *)
@@ -233,7 +248,9 @@ Inductive op :=
 | OSetState (a slot val : Z)         (* Keeper.SetState with a 32-byte value: a zero word is stored, not deleted *)
 | ODestroy (a : Z)                   (* cStateDb.DestroyAccount: DeleteCodeHash and every slot of the account deleted *)
 | OEvmParams (p : Z)
-| OFm (f : fm_state)                 (* fee market: SetParams (governance) / EndBlock base fee update *)
+| OFm (f : fm_state)                 (* fee market MsgUpdateParams -> Keeper.SetParams: an invalid value is refused *)
+| OEndBlock (next : Z)               (* fee market EndBlock: SetBaseFee (max next trunc(MinGasPrice)); next = outcome of the
+                                        EIP-1559 formula for the block (never negative; a negative one would panic) *)
 | OCpcParams (p : Z)
 | ODeployErc20 (addr denom : Z) (m : meta)   (* Keeper.DeployErc20CustomPrecompiledContract at the next dynamic address *)
 | ODeployStaking (m : meta)          (* Keeper.DeployStakingCustomPrecompiledContract (message or genesis) *)
@@ -255,7 +272,10 @@ Definition apply_op (k : cpc_consts) (v : env) (s : cstate) (o : op) : cstate :=
       St (Evm (e_params e) (zdel a (e_codehash e)) (e_code e) (filter (fun kv => negb (in_addr a (fst kv))) (e_storage e)))
          (s_fm s) c (s_proofs s)
   | OEvmParams p => St (Evm p (e_codehash e) (e_code e) (e_storage e)) (s_fm s) c (s_proofs s)
-  | OFm f => St e f c (s_proofs s)
+  | OFm f => if fm_valid f then St e f c (s_proofs s) else s
+  | OEndBlock next =>
+      if next <? 0 then s
+      else St e (Fm (Z.max next (fm_floor (s_fm s))) (f_min_gas_price (s_fm s))) c (s_proofs s)
   | OCpcParams p => St e (s_fm s) (Cpc p (c_metas c) (c_denoms c) (c_allow c)) (s_proofs s)
   | ODeployErc20 addr denom m =>
       if zhas denom (c_denoms c) then s
